@@ -311,3 +311,47 @@ class PandasDateTimeCoerceLeavesTheDtypeAlone(Contract):
 
 
 CONTRACTS = [_mk(*t) for t in TARGETS] + [PandasDateTimeCoerceLeavesTheDtypeAlone]
+
+
+# ---------------------------------------------------------------------------------------------------------
+# structural: process-wide registries reachable from a schema are never duplicated by copy / deepcopy
+# ---------------------------------------------------------------------------------------------------------
+def registries_are_not_duplicated_by_copies():
+    """For every built-in check: the Dispatcher in Check.CHECK_FUNCTION_REGISTRY survives copy.copy / copy.deepcopy as the SAME object
+    (a copy would freeze the set of implementations registered so far; back ends register lazily, so a schema would differ from a deep
+    copy taken before its first validation: `schema == snapshot` is part of C05).  Exhaustive over the live registry."""
+    import copy
+    import warnings
+
+    warnings.simplefilter("ignore")
+    import pandera as pa
+
+    bad = []
+    reg = pa.Check.CHECK_FUNCTION_REGISTRY
+    for name, fn in sorted(reg.items()):
+        if copy.deepcopy(fn) is not fn or copy.copy(fn) is not fn:
+            bad.append(name)
+    chk = pa.Check.gt(0)
+    same = copy.deepcopy(chk)._check_fn is chk._check_fn
+    return [{"oid": "structural.registries_are_not_duplicated_by_copies/check_dispatchers", "ok": not bad and same,
+             "note": f"{len(reg)} registered built-in check dispatchers; duplicated by a copy: {len(bad)}", "witness": {"duplicated": bad[:8], "deepcopy(Check.gt(0))._check_fn is the original": same}}]
+
+
+def _replay_registry(rec):
+    def thunk():
+        import copy
+        import subprocess
+        import sys
+
+        code = ("import warnings; warnings.simplefilter('ignore'); import copy, pandas as pd, pandera as pa\\n"
+                "s = pa.DataFrameSchema({'a': pa.Column(int, pa.Check.gt(0))}); snap = copy.deepcopy(s)\\n"
+                "s.validate(pd.DataFrame({'a': [1]})); print(s == snap)")
+        p = subprocess.run([sys.executable, "-c", code], capture_output=True, text=True, timeout=300)
+        out = p.stdout.strip().splitlines()[-1:] or [p.stderr[-200:]]
+        return out != ["True"], {"schema == deepcopy taken before the first validation (fresh interpreter)": out[0]}
+
+    return thunk
+
+
+registries_are_not_duplicated_by_copies.concretize = _replay_registry
+STRUCTURAL = [registries_are_not_duplicated_by_copies]
